@@ -465,6 +465,14 @@ pub fn run_case(cfg: &FsxCfg, case: &Case, acc: &mut Acc, known: &[KnownFinding]
             break 'outer;
         }
         if !it.divs.is_empty() {
+            // the model and the crate disagree about something that is another property's
+            // business; this property's own oracle still gets to look at the state the call left
+            if !info.skipped {
+                if let Some(f) = after_step(prop, &it, &ctx, &info) {
+                    result = Err(f);
+                    break 'outer;
+                }
+            }
             if verbose {
                 println!("  out-of-scope divergence: {:?}", it.divs[0]);
             }
